@@ -48,6 +48,8 @@ def main():
             hit = [f for f in failed if any(f.startswith(e) or e in f for e in m["expect"])]
             if "standin" in m["expect"]:
                 hit = [l for l in r.stdout.split("\n") if l.startswith("VIOLATION") and "standin_" in l]
+            if any(e.endswith("/load") or e.endswith("/family") for e in m["expect"]) and not hit:
+                hit = [l for l in r.stdout.split("\n") if l.startswith("VIOLATION") and ("_load.json" in l or "_family.json" in l)]
             ok = r.returncode == 1 and hit
             print(f"{'ok  ' if ok else 'MISS'} {m['id']:32s} {m['property']} exit={r.returncode} {time.time()-t0:5.1f}s failed={failed[:4]}")
             if not ok:
